@@ -199,6 +199,10 @@ func checkC13(c *Ctx) {
 	} else {
 		c.unresolvedRoot("(*Client).closeWithError / completeCommand")
 	}
+	c.rule("C13.n", "one-shot channel closes in types with an atomic flag are guarded by the flag's atomic test-and-set", 1)
+	ruleAtomicGuardedClose(c, "C13.n", "imapclient")
+	c.rule("C13.o", "a command object releases the encoder it owns at most once (non-nil guard, reset after end)", 1)
+	ruleEncoderEndOnce(c, "C13.o")
 	rulePublication(c, "C13.b", la, guards, clientGuard)
 	ruleCommandEncoderPairing(c, "C13.c")
 	ruleCompletionPairing(c, "C13.d", la, clientGuard)
